@@ -166,7 +166,8 @@ def run_property(prop, tier="quick", db=None, only_rule=None, quiet=False):
         try:
             spec.fn(ctx)
             n = len(ctx.items)
-            if n < spec.min_instances:
+            if n < spec.min_instances and not any(i["status"] == "violation" for i in ctx.items):
+                # a rule that stopped at a violation has not been vacuous
                 raise AnalysisError(
                     "%s: matched %d instances, frozen minimum is %d (vacuity guard)"
                     % (spec.rid, n, spec.min_instances)
